@@ -132,16 +132,16 @@ func checkTraversal(res *Result, sql string, tree *ast.AST) {
 		}
 		_ = r
 	}
-	if len(leftVis) > 0 && nLeft > 0 && nLeft <= 4000 && len(leftVis) <= 4000 {
+	if len(leftVis) > 0 && nLeft > 0 {
 		for i, r := range reach {
 			if !matched[i] {
-				d := r.typ + dumpVal(r.val)
+				d := r.typ + dumpShallow(r.val, 8)
 				byDump[d] = append(byDump[d], i)
 			}
 		}
 		rest := leftVis[:0]
 		for _, v := range leftVis {
-			d := v.typ + dumpVal(v.val)
+			d := v.typ + dumpShallow(v.val, 8)
 			if xs := byDump[d]; len(xs) > 0 {
 				matched[xs[0]] = true
 				byDump[d] = xs[1:]
@@ -160,14 +160,70 @@ func checkTraversal(res *Result, sql string, tree *ast.AST) {
 		}
 		key := "children-missing:" + r.parent + "." + r.fld
 		res.fail(key, fmt.Sprintf("Inspect never visits the %s reachable through %s.%s", r.typ, r.parent, r.fld),
-			map[string]any{"sql": truncate(sql, 600), "node": truncate(dumpVal(r.val), 300)}, nil)
+			map[string]any{"sql": truncate(sql, 600), "node": truncate(dumpShallow(r.val, 12), 300)}, nil)
 	}
 	for _, v := range leftVis {
 		res.fail("children-extra", "Inspect visits a node that is not reachable through the tree's own fields",
-			map[string]any{"sql": truncate(sql, 600), "node": truncate(dumpVal(v.val), 300)}, nil)
+			map[string]any{"sql": truncate(sql, 600), "node": truncate(dumpShallow(v.val, 12), 300)}, nil)
 	}
 	res.statN("nodes_reachable", len(reach))
 	res.statN("nodes_visited", len(vis))
+	checkAnalyses(res, sql, tree, reach)
+}
+
+// checkAnalyses: the analyses built on the traversal (table and function extraction) report every table reference
+// and every function call the tree holds, wherever it sits — compared with what reflection finds in the tree itself.
+func checkAnalyses(res *Result, sql string, tree *ast.AST, reach []reached) {
+	tabs := map[string]bool{}
+	for _, t := range gosqlx.ExtractTables(tree) {
+		tabs[strings.ToLower(t)] = true
+	}
+	for _, q := range gosqlx.ExtractTablesQualified(tree) {
+		tabs[strings.ToLower(q.String())] = true
+		tabs[strings.ToLower(q.Name)] = true
+	}
+	fns := map[string]bool{}
+	for _, f := range gosqlx.ExtractFunctions(tree) {
+		fns[strings.ToLower(f)] = true
+	}
+	// names introduced by WITH are not tables
+	ctes := map[string]bool{}
+	for _, r := range reach {
+		if r.typ == "CommonTableExpr" {
+			ctes[strings.ToLower(r.val.FieldByName("Name").String())] = true
+		}
+	}
+	where := func(r reached) string {
+		// the nearest enclosing clause field, e.g. JoinClause.Condition > InExpression.Subquery
+		path := r.parent + "." + r.fld
+		for up := r.up; up >= 0; up = reach[up].up {
+			if t := reach[up].typ; t == "JoinClause" || t == "WindowFrameBound" || t == "WindowFrame" || t == "WindowSpec" || t == "MergeStatement" || t == "OnConflict" {
+				return t + ">" + path
+			}
+		}
+		return path
+	}
+	for _, r := range reach {
+		switch r.typ {
+		case "TableReference":
+			name := strings.ToLower(r.val.FieldByName("Name").String())
+			if name == "" || ctes[name] || tabs[name] || strings.HasPrefix(name, "(") {
+				continue // "(t_with_n_joins)" is the parser's synthetic name for the left side of a join chain, not a written table
+			}
+			if i := strings.LastIndex(name, "."); i >= 0 && tabs[name[i+1:]] {
+				continue
+			}
+			res.fail("analysis-misses:table:"+where(r), "ExtractTables does not report a table reference the tree holds",
+				map[string]any{"sql": truncate(sql, 600), "table": name}, nil)
+		case "FunctionCall":
+			name := strings.ToLower(r.val.FieldByName("Name").String())
+			if name == "" || fns[name] {
+				continue
+			}
+			res.fail("analysis-misses:function:"+where(r), "ExtractFunctions does not report a function call the tree holds",
+				map[string]any{"sql": truncate(sql, 600), "function": name}, nil)
+		}
+	}
 }
 
 func truncate(s string, n int) string {
